@@ -8,6 +8,7 @@ CONSTANTS
   MaxPert = 2
   Rounds = 26
   OwnConds <- OCAll
+  Presets <- BBoth
   GenSels <- BBoth
   ScaleRevs <- BBoth
 INVARIANTS C07_OneMove C07_HookOrder C07_Gate C07_OldStay C07_NonRevNow C08_Linear C07_StuckWaits
